@@ -114,6 +114,7 @@ def run(tier, seed):
                            "form": detail["form"][:400], "leg": leg, "hygiene_only": hygiene, "dedupe": (tag if tag != "random" else detail["why"][:30])},
                           {"forms": [show(f) for f in forms], "detail": detail, "leg": leg})
         ctx.legs.append(leg)
+    diff.file_transport(ctx, [forms for tag, forms in rng.sample(progs, min(len(progs), 300 if tier == "quick" else core.share(6000))) if not any(gen_derived.binds_capture_prone(f) for f in forms)], legs[-1], "a derived-form program")
     ctx.observed["pair_programs"] = npairs
     ctx.sample({"pair": [show(f) for f in progs[0][1]]}); ctx.sample({"pair": [show(f) for f in progs[npairs // 2][1]]})
     ctx.sample({"random": [show(f) for f in progs[npairs][1]]})
